@@ -55,6 +55,16 @@ CLAIMED = {
             'pysam.AlignedSegment modelled as a record of independent fields (stub); reads >= 8 nt without RR/DS/RS/RZ tags; '
             'well-formed CIGAR ends (M or S); no_overhang / check_motif=False branches not under contract.',
             '5/C09'),
+    'C05': ('Repository-side proof obligations of record conservation: the contig-per-process job construction (always used by '
+            '--multiprocess) puts every contig with reads into exactly one job and the unmapped bin into exactly one job, for '
+            'any number/order/size of contigs (loop invariant under a counting abstraction w.r.t. an arbitrary contig); '
+            'run_tagging_tasks accumulates the molecule count of every task and keeps the job\'s output file iff any task '
+            'wrote a molecule.',
+            'A4: pysam fetch/sort/index/merge, MatePairIterator pairing and idxstats are assumed (record fields unchanged by '
+            'I/O, coordinate sorting, index, any worker completion order are NOT decided here - DESIGN section 7); '
+            'run_tagging_task is an assumed contract at its call site; MoleculeIterator fragment conservation and '
+            'write_pysam loops not under contract yet; bounded siblings (1..4 contigs) reported separately.',
+            '5/C05'),
 }
 
 NOT_YET = 'check not built yet (framework under construction; see DESIGN.md section 5)'
